@@ -61,3 +61,24 @@ Definition mset {T} (p : profile) (M : cmat T) (r c : nat) (v : T)
   : res (cmat T) :=
   do k <- mslot p M r c;
   Ok {| m_data := set_nth (m_data M) k v; m_obs := m_obs M |}.
+
+(* The index expression as a syntax tree, so that the translator can compare
+   the source text of condensed.rs with it. *)
+Inductive iexp := IN | IR | IC | IK (k : nat)
+| IAdd (a b : iexp) | ISub (a b : iexp) | IMul (a b : iexp) | IDiv (a b : iexp).
+
+Fixpoint ieval (e : iexp) (n r c : nat) : nat :=
+  match e with
+  | IN => n | IR => r | IC => c | IK k => k
+  | IAdd a b => ieval a n r c + ieval b n r c
+  | ISub a b => ieval a n r c - ieval b n r c
+  | IMul a b => ieval a n r c * ieval b n r c
+  | IDiv a b => ieval a n r c / ieval b n r c
+  end.
+
+(* ((2 * self.observations() - row - 3) * row / 2) + column - 1 *)
+Definition cidx_exp : iexp :=
+  ISub (IAdd (IDiv (IMul (ISub (ISub (IMul (IK 2) IN) IR) (IK 3)) IR) (IK 2)) IC) (IK 1).
+
+Lemma cidx_nat_is_exp n r c : cidx_nat n r c = ieval cidx_exp n r c.
+Proof. reflexivity. Qed.
